@@ -21,7 +21,7 @@ func init() {
 		Floor: 6, MustExist: true, Run: runR101,
 	})
 	register(&Rule{
-		ID: "R10.2", Props: []string{"C10"}, Engine: "guard",
+		ID: "R10.2", Props: []string{"C10", "C01"}, Engine: "guard",
 		Text: "possession proven before access is granted: in hierarchicalCASBlobAccess.Put a lookup entry for content that already exists is written only after the uploader's buffer was consumed without error (dominated by the nil edge of IntoWriter on the uploaded buffer), otherwise only through finalizePut of the data the uploader supplied",
 		Floor: 1, MustExist: true, Run: runR102,
 	})
